@@ -61,6 +61,14 @@ def gen_world(seed, wi):
     if wi % 3 == 2:
         # family "between": gene A has an allele of two core variants none of which has an allele of its own
         gopts[0].update(orphan_core="always", ambiguous=False, n_variants=8)
+    exome_ok = wi % 5 == 3
+    if exome_ok:
+        # two databases the shipped "illumina" profile knows by name and region names (3 exons, no pseudogene),
+        # with a whole-gene deletion allele so that copy-number calling exists: the technology profiles given by
+        # name (exome / wxs / wes: copy-number calling off, two copies assumed) work on them, alone and in a
+        # multi-gene run
+        for o, nm in zip(gopts, ("NUDT15", "NAT1")):
+            o.update(name=nm, n_exons=3, pseudo=False, deletion=True, lfusion=False, rfusion=False, tandem=False)
     # a third gene nobody sequenced: it must fail with a reported error
     gopts.append(dict(strand=rng.choice("+-"), gene_len=420, n_exons=2, n_variants=3,
                       n_major=1, pseudo=False, deletion=True))
@@ -68,6 +76,8 @@ def gen_world(seed, wi):
     step = rng.choice([s for s in (3, 4, 5) if L % s == 0] or [5])
     world = W.gen_world(rng, 3, gopts, dict(L=L, step=step), margin=max(200, L + 60))
     world["genes"][2]["no_reads"] = True
+    if exome_ok:
+        world["exome_ok"] = True
     samples = {}
     for si in range(2):
         smp = {"name": f"s{si}", "genes": {}, "phase_seed": rng.randint(0, 999),
@@ -109,7 +119,7 @@ def gen_op(rng, w):
     if kind in ("genotype", "debug"):
         op["gene"] = rng.choice(genes + ([failing] if kind == "genotype" and rng.random() < 0.1 else []))
         op["out"] = rng.choice(OUT_KINDS)
-        if kind == "genotype" and rng.random() < 0.12:
+        if kind == "genotype" and rng.random() < (0.5 if w["world"].get("exome_ok") else 0.12):
             # exome route: copy-number calling off, shipped illumina profile (which does not know the
             # generated gene -> reported error); it must leave nothing behind for later operations
             op["exome"] = rng.choice(["exome", "wxs", "wes"])
@@ -120,6 +130,8 @@ def gen_op(rng, w):
             gl.insert(rng.randint(0, len(gl)), failing)
         op["genes"] = gl
         op["out"] = rng.choice(OUT_KINDS)
+        if w["world"].get("exome_ok") and rng.random() < 0.6:
+            op["exome"] = rng.choice(["exome", "wxs", "wes"])
         if rng.random() < 0.3:
             op["mixed_path"] = True
     elif kind == "query":
@@ -220,7 +232,8 @@ def ref_ops_for(op, w):
     if op["op"] == "multi":
         for g in op["genes"]:
             out.append({"op": "genotype", "sample": op["sample"], "gene": g, "out": op["out"],
-                        **({"mixed_path": True} if op.get("mixed_path") else {})})
+                        **({"mixed_path": True} if op.get("mixed_path") else {}),
+                        **({"exome": op["exome"]} if op.get("exome") else {})})
     if op["op"] == "minor_order":
         out = [{"op": "minor_order", "sample": op["sample"], "gene": op["gene"],
                 "perm_seed": 0, "mode": "natural"}]
@@ -725,7 +738,8 @@ def _op(ctx, op):
     elif kind in ("genotype", "multi", "debug"):
         prof, cnr = _profile_args(seg)
         if op.get("exome"):
-            prof, cnr = op["exome"], None
+            # (where the shipped profile knows the database, the neutral region is the simulated one)
+            prof, cnr = op["exome"], (man["neutral"] if seg["world"].get("exome_ok") else None)
         def dbpath(g_):
             p_ = os.path.join(wd, man["db"][g_])
             if op.get("mixed_path"):
